@@ -52,7 +52,7 @@ ENGINES = [
 
 check('C09', 'text-stream sim',
       'Seeded search over RING texts and text-stream fault sequences run through the real reader under a deterministic step clock: every run must end within the step budget with a query object, a RING error with an in-text position, or the not-implemented error, and accepted text must be consumed in full. Truncation of every shipped pattern at every offset is exhaustive in the thorough tier; everything else is sampling, so a clean batch is evidence, not proof.',
-      'Trusts the step budget (>= 50x the worst shipped fragment) to separate slow from hung, the LINE-event clock (C extensions are not seen), and the hand-written text generator to reach the grammar; texts <= 800 chars, <= 8 atoms.',
+      'Trusts the step budget (>= 50x the worst shipped fragment) to separate slow from hung, the LINE-event clock (C extensions are not seen), and the hand-written text generator to reach the grammar; fault-mutated texts <= 800 chars / <= 8 atoms, plus size strata (chains of up to 400 atoms, numbers of up to 9000 digits).',
       'deterministic simulation: simulated step clock + seeded text-stream fault injection (EOF/token/byte faults), replayable by seed',
       'DESIGN.md 3.1')
 
